@@ -156,6 +156,48 @@ fn upstream_answer(rng: &mut Rng, q: &Value) -> Value {
     })
 }
 
+/// A construction route (Cache.tla q.route) that reaches the flags of `q`
+/// as far as the setters decide them; what an OPT record of the source
+/// contributes is for the specification to say.
+fn pick_route(rng: &mut Rng, q: &Value) -> Value {
+    let flag = |f: &str| q[f].as_bool().unwrap_or(false);
+    let mut ops: Vec<Value> = vec![];
+    let mut src = json!({"rd": false, "ad": false, "cd": false, "opt": 0});
+    for f in ["rd", "ad", "cd"] {
+        match rng.below(3) {
+            0 => {
+                // set through header_mut()
+                ops.push(json!([f, if flag(f) { 1 } else { 0 }]));
+                src[f] = json!(rng.chance(1, 3));
+            }
+            _ => src[f] = json!(flag(f)),
+        }
+    }
+    src["opt"] = json!(match rng.below(4) { 0 => 1, 1 => 2, _ => 0 });
+    let mut e: Vec<Value> = vec![];
+    if flag("do") {
+        if rng.chance(1, 4) { e.push(json!(["do", 0])); }
+        if rng.chance(1, 4) { e.push(json!(["udp", 1232])); }
+        e.push(json!(["do", 1]));
+        if rng.chance(1, 4) { e.push(json!(["udp", 4096])); }
+    } else {
+        match rng.below(6) {
+            0 => e.push(json!(["do", 0])),
+            1 => e.push(json!(["udp", 1232])),
+            2 => { e.push(json!(["do", 1])); e.push(json!(["do", 0])); }
+            _ => {}
+        }
+    }
+    // EDNS setters before or after the header ones
+    if rng.chance(1, 2) {
+        e.extend(ops);
+        json!({"src": src, "ops": e})
+    } else {
+        ops.extend(e);
+        json!({"src": src, "ops": ops})
+    }
+}
+
 fn pick_config(kind: &str, rng: &mut Rng) -> Value {
     match kind {
         "default" => json!({"maxValidity": 604800, "transportFailure": 30, "miscError": 30,
@@ -263,7 +305,25 @@ fn main() {
                 }
                 q
             };
-            let up_model = upstream_answer(&mut rng, &q);
+            // how the request is constructed: the flags above are reached
+            // by a random route (bits in the source or through header_mut,
+            // a source with / without an OPT record, EDNS setters)
+            let mut q = q;
+            q["route"] = pick_route(&mut rng, &q);
+            // a well-behaved upstream answers the query it finds ON THE WIRE
+            let wire_q = match wire_message(&build_request(&q, drv.next_id)) {
+                Some(m) => {
+                    let mut w = project_request(&m);
+                    if w["nq"] == json!(0) {
+                        w["name"] = q["name"].clone();
+                        w["qtype"] = q["qtype"].clone();
+                        w["qclass"] = q["qclass"].clone();
+                    }
+                    w
+                }
+                None => q.clone(),
+            };
+            let up_model = upstream_answer(&mut rng, &wire_q);
             let up = build_response(&up_model, drv.next_id, &mut tab);
             let up_shown = project_resp(&up, None);
             let t = t0.elapsed().as_millis() as u64;
@@ -276,11 +336,13 @@ fn main() {
                 "up": if called { up_shown } else { json!({"err": "unused"}) },
                 "served": project_resp(&out.served, None),
             });
-            // the request must be forwarded unchanged, once
+            // forwarded once; what upstream found on the wire is judged by
+            // the specification (Trace_Cache: fwd against AskedQ)
             if called {
-                let fwd_q = expected_forward(&q);
-                if out.upstream.len() != 1 || project_request(&out.upstream[0]) != fwd_q {
+                if out.upstream.len() != 1 {
                     ev["ev"] = json!("bad_forward");
+                } else {
+                    ev["fwd"] = project_request(&out.upstream[0]);
                 }
             }
             w.event(ev);
